@@ -672,6 +672,24 @@ func loadedField(v ssa.Value) *types.Var {
 			v = x.X
 		case *ssa.MakeInterface:
 			v = x.X
+		case *ssa.Phi:
+			// a local alias: the field's value, or the fresh container about to replace it
+			var fv *types.Var
+			for _, e := range x.Edges {
+				switch e.(type) {
+				case *ssa.MakeMap, *ssa.MakeSlice:
+					continue
+				}
+				if _, isPhi := e.(*ssa.Phi); isPhi {
+					return nil
+				}
+				f2 := loadedField(e)
+				if f2 == nil || (fv != nil && fv != f2) {
+					return nil
+				}
+				fv = f2
+			}
+			return fv
 		default:
 			return nil
 		}
